@@ -8,8 +8,8 @@
    `load (save s)` is `s` with the output emptied ([save_load_id]); hence a continued run is
    the uninterrupted run with its output prefix removed.                                   *)
 From Coq Require Import ZArith List Lia Bool Permutation ZifyBool.
-From SFV Require Import Base Interp.
-From SFV.P Require Import BaseP InterpP InterpHeapP IdsP RefsP OnceP.
+From SFV Require Import Base RandRange RowHistory Interp.
+From SFV.P Require Import BaseP InterpP InterpHeapP QuietP IdsP RefsP OnceP.
 Import ListNotations. Open Scope Z_scope.
 
 (* ------------------------------------------------------------------ frames are not touched by
@@ -33,7 +33,8 @@ Proof.
   - dbind H as [s1 v1]. apply IHa in E.
     destruct v1; try discriminate;
       try (destruct (py_own_attr f); [discriminate|]);
-      try (injection H as <- _; exact E).
+      try (injection H as <- _; exact E);
+      try (destruct (String.eqb f "id"); [injection H as <- _; exact E|discriminate]).
     + destruct (nth_error (heap s1) h); [|discriminate].
       destruct (row_attr c f); injection H as <- _; exact E.
     + destruct (String.eqb f "id"); [|discriminate]. dbind H as [s2 i].
@@ -83,6 +84,7 @@ Proof.
       destruct (row_attr c p); [|discriminate]. injection E as <- _. reflexivity.
     + destruct (String.eqb p "id"); [|discriminate]. dbind E as [s2 i].
       injection E as <- _. apply touch_slot_frames in E0. exact E0.
+    + destruct (String.eqb p "id"); [|discriminate]. injection E as <- _. reflexivity.
 Qed.
 
 Lemma reference_frames e path s s' v : reference e path s = Ok (s', v) -> same_frames s s'.
@@ -95,6 +97,7 @@ Proof.
   - injection H as <- _. exact E0.
   - dbind H as [s2 i]. injection H as <- _.
     apply touch_slot_frames in E1. unfold same_frames in *. congruence.
+  - injection H as <- _. exact E0.
 Qed.
 
 
@@ -145,7 +148,8 @@ Proof.
   - reflexivity.
   - rewrite lookup_name_app. destruct (lookup_name e s n) as [[v|]|]; reflexivity.
   - rewrite IHa. destruct (eval_expr e a s) as [[s1 v]|]; [|reflexivity]. cbn [liftA bind].
-    destruct v; try reflexivity; try (destruct (py_own_attr f); reflexivity).
+    destruct v; try reflexivity; try (destruct (py_own_attr f); reflexivity);
+      try (destruct (String.eqb f "id"); reflexivity).
     + destruct (py_own_attr f); [reflexivity|]. change (heap (app_out o s1)) with (heap s1).
       destruct (nth_error (heap s1) h); [|reflexivity]. destruct (row_attr c f); reflexivity.
     + destruct (String.eqb f "id"); [|reflexivity]. rewrite touch_slot_app.
@@ -193,6 +197,7 @@ Proof.
     destruct (row_attr c p); reflexivity.
   - destruct (String.eqb p "id"); [|reflexivity]. rewrite touch_slot_app.
     destruct (touch_slot s name) as [[s1 i]|]; reflexivity.
+  - destruct (String.eqb p "id"); reflexivity.
 Qed.
 
 Lemma follow_path_app parts : forall s o v, follow_path (app_out o s) v parts = liftA o (follow_path s v parts).
@@ -226,6 +231,7 @@ Proof.
     rewrite touch_slot_app. destruct (touch_slot s name) as [[s1 i]|]; [|reflexivity]. cbn [liftA bind].
     rewrite IH. destruct (flatten_fields s1 r) as [[s2 rest]|]; reflexivity.
   - reflexivity.
+  - rewrite IH. destruct (flatten_fields s r) as [[s2 rest]|]; reflexivity.
 Qed.
 
 Lemma write_row_app s h o : write_row (app_out o s) h = liftS o (write_row s h).
@@ -272,6 +278,26 @@ Proof.
   apply IH.
 Qed.
 
+Lemma remember_history_app e s t nick id o :
+  remember_history e (app_out o s) t nick id = liftS o (remember_history e s t nick id).
+Proof.
+  unfold remember_history. change (hist (rnd (app_out o s))) with (hist (rnd s)).
+  destruct (existsb (String.eqb t) (hist_tables e)).
+  - destruct (match nick with Some n => negb (nick_maps_to (hist (rnd s)) n t) | None => false end); reflexivity.
+  - destruct nick as [n|]; [destruct (existsb (String.eqb n) (hist_tables e))|]; reflexivity.
+Qed.
+
+Lemma random_reference_app e to s o :
+  random_reference e to (app_out o s) = liftA o (random_reference e to s).
+Proof.
+  unfold random_reference. change (rnd (app_out o s)) with (rnd s).
+  destruct (negb (rr_ok e)); [reflexivity|].
+  destruct (ref_range (hist (rnd s)) to) as [[[[nick table] lo] hi]|]; [|reflexivity]. cbn [bind].
+  destruct (draws (rnd s)) as [|r rest]; [reflexivity|].
+  destruct ((0 <=? r) && (r <? hi - lo + 1)); [|reflexivity].
+  destruct (resolve_draw (hist (rnd s)) nick table (lo + r)) as [[t i]|]; reflexivity.
+Qed.
+
 Lemma count_liftA {A} (o : list orow) (r : result (st * A)) (k : st * A -> result (st * ret)) s1 a :
   r = Ok (s1, a) -> bind (liftA o r) k = k (app_out o s1, a).
 Proof. intros ->. reflexivity. Qed.
@@ -287,8 +313,11 @@ Proof.
   - destruct x as [t|name d].
     + destruct (t_once t && c); [reflexivity|].
       rewrite IH. destruct (run n e (TRows t) s) as [[s1 r1]|]; reflexivity.
-    + rewrite push_frame_app, IH. destruct (run n e (TField d) (push_frame s)) as [[s1 r1]|]; [|reflexivity].
-      cbn [liftA bind]. rewrite pop_frame_app, set_var_app. reflexivity.
+    + destruct d; try reflexivity;
+        (rewrite push_frame_app, IH;
+         match goal with |- context [run n e (TField ?d0) (push_frame s)] =>
+           destruct (run n e (TField d0) (push_frame s)) as [[s1 r1]|] end; [|reflexivity];
+         cbn [liftA bind]; rewrite pop_frame_app, set_var_app; reflexivity).
   - rewrite push_frame_app.
     destruct (t_count t) as [d|].
     + rewrite IH. destruct (run n e (TField d) (push_frame s)) as [[s1 r1]|]; [|reflexivity].
@@ -311,19 +340,23 @@ Proof.
       [|reflexivity].
     cbn [liftA bind]. change (heap (app_out o s4)) with (heap s4).
     destruct (nth_error (heap s4) (length (heap s1))) as [c|]; [|reflexivity].
-    rewrite remember_deps_app, write_row_app.
-    destruct (write_row (remember_deps s4 (t_table t) (c_fields c)) (length (heap s1))) as [s6|]; [|reflexivity].
+    rewrite remember_deps_app, remember_history_app.
+    destruct (remember_history e (remember_deps s4 (t_table t) (c_fields c)) (t_table t) (t_nick t) id) as [s5h|];
+      [|reflexivity].
+    cbn [liftS bind]. rewrite write_row_app.
+    destruct (write_row s5h (length (heap s1))) as [s6|]; [|reflexivity].
     cbn [liftS bind]. rewrite IH. destruct (run n e (TStmts (t_friends t) true) s6) as [[s7 r7]|]; reflexivity.
   - destruct fs as [|[name d] fs]; [reflexivity|].
     destruct (String.eqb name "id"); [reflexivity|].
     rewrite IH. destruct (run n e (TField d) s) as [[s1 v]|]; [|reflexivity]. cbn [liftA bind].
     rewrite set_field_app. apply IH.
-  - destruct d as [z|x|ps|path|t].
+  - destruct d as [z|x|ps|path|t|to].
     + reflexivity.
     + destruct (version e =? 3); [reflexivity|]. destruct (look_for_number x); reflexivity.
     + rewrite render_formula_app. destruct (render_formula e ps s) as [[s1 v]|]; reflexivity.
     + rewrite reference_app. destruct (reference e path s) as [[s1 v]|]; reflexivity.
     + apply IH.
+    + rewrite random_reference_app. destruct (random_reference e to s) as [[s1 v]|]; reflexivity.
 Qed.
 
 (* ------------------------------------------------------------------ (2) frame discipline *)
@@ -366,6 +399,9 @@ Proof.
   rewrite IH. destruct (target_table s v); [|reflexivity]. destruct (existsb _ _); reflexivity.
 Qed.
 
+Lemma rnd_only_frames s s' : rnd_only s s' -> frames s' = frames s.
+Proof. intros [x ->]. reflexivity. Qed.
+
 Theorem run_frames fuel : forall e tk s s' r,
   run fuel e tk s = Ok (s', r) -> frames s <> [] ->
   tl (frames s') = tl (frames s) /\ frames s' <> [] /\ (whole tk = true -> frames s' = frames s).
@@ -381,12 +417,13 @@ Proof.
     + destruct (t_once t && c); [injection H as <- _; auto|].
       dbind H as [s1 r1]. injection H as <- _. destruct (IH _ _ _ _ _ E Hne) as (T1 & N1 & W1).
       splits; auto.
-    + dbind H as [s1 r1]. injection H as <- _.
-      assert (Hp : frames (push_frame s) <> []) by (cbn; discriminate).
-      destruct (IH _ _ _ _ _ E Hp) as (T1 & N1 & W1). specialize (W1 eq_refl).
-      destruct (set_var_frames_tl (pop_frame s1) name (ret_value r1)) as [Ht Hn].
-      rewrite pop_frame_frames, W1 in Ht, Hn. cbn [push_frame frames upd_frames tl] in Ht, Hn.
-      splits; [exact Ht|apply Hn; exact Hne|discriminate].
+    + destruct d; try discriminate;
+        (dbind H as [s1 r1]; injection H as <- _;
+         assert (Hp : frames (push_frame s) <> []) by (cbn; discriminate);
+         destruct (IH _ _ _ _ _ E Hp) as (T1 & N1 & W1); specialize (W1 eq_refl);
+         destruct (set_var_frames_tl (pop_frame s1) name (ret_value r1)) as [Ht Hn];
+         rewrite pop_frame_frames, W1 in Ht, Hn; cbn [push_frame frames upd_frames tl] in Ht, Hn;
+         splits; [exact Ht|apply Hn; exact Hne|discriminate]).
   - dbind H as [s1 cnt]. dbind H as [s2 r2]. injection H as <- _.
     assert (Hp : frames (push_frame s) <> []) by (cbn; discriminate).
     assert (H1 : frames s1 = frames (push_frame s)).
@@ -406,7 +443,8 @@ Proof.
   - destruct (new_row_id s (t_table t) (t_nick t)) as [s1 id] eqn:Hid.
     dbind H as [s4 r4].
     destruct (nth_error (heap s4) (length (heap s1))) as [c|]; [|discriminate].
-    dbind H as s6. dbind H as [s7 r7]. injection H as <- _.
+    dbind H as s5h. dbind H as s6. dbind H as [s7 r7]. injection H as <- _.
+    apply remember_history_rnd in E0. apply rnd_only_frames in E0.
     pose proof (new_row_id_frames s (t_table t) (t_nick t)) as F1. rewrite Hid in F1. cbn [fst] in F1.
     set (s2 := upd_heap s1 (heap s1 ++ [mkCell (t_table t) id i []])) in *.
     assert (F2 : frames s2 = frames s) by exact F1.
@@ -414,18 +452,18 @@ Proof.
     assert (N3 : frames (register_object (set_obj s2 (length (heap s1))) (length (heap s1)) (t_table t) (t_nick t) (t_once t)) <> []).
     { rewrite register_object_frames. apply Hn. rewrite F2. exact Hne. }
     destruct (IH _ _ _ _ _ E N3) as (T4 & N4 & _).
-    apply write_row_frames in E0. rewrite remember_deps_frames in E0.
-    assert (N6 : frames s6 <> []) by (rewrite E0; exact N4).
-    destruct (IH _ _ _ _ _ E1 N6) as (T7 & N7 & _).
+    apply write_row_frames in E1. rewrite E0, remember_deps_frames in E1.
+    assert (N6 : frames s6 <> []) by (rewrite E1; exact N4).
+    destruct (IH _ _ _ _ _ E2 N6) as (T7 & N7 & _).
     splits; [|exact N7|discriminate].
-    rewrite T7, E0, T4, register_object_frames, Ht, F2. reflexivity.
+    rewrite T7, E1, T4, register_object_frames, Ht, F2. reflexivity.
   - destruct fs as [|[name d] fs]; [injection H as <- _; splits; auto; discriminate|].
     destruct (String.eqb name "id"); [discriminate|].
     dbind H as [s1 v]. destruct (IH _ _ _ _ _ E Hne) as (T1 & N1 & W1). specialize (W1 eq_refl).
     assert (N1' : frames (set_field s1 h name (ret_value v)) <> []) by (rewrite set_field_frames; exact N1).
     destruct (IH _ _ _ _ _ H N1') as (T2 & N2 & _). rewrite set_field_frames in T2.
     splits; [congruence|exact N2|discriminate].
-  - destruct d as [z|x|ps|path|t].
+  - destruct d as [z|x|ps|path|t|to].
     + injection H as <- _. auto.
     + destruct (version e =? 3); [injection H as <- _; auto|].
       dbind H as w0. injection H as <- _. auto.
@@ -434,13 +472,19 @@ Proof.
     + dbind H as [s1 v]. injection H as <- _. apply reference_frames in E.
       unfold same_frames in E. rewrite E. auto.
     + destruct (IH _ _ _ _ _ H Hne) as (T & N & W). splits; auto.
+    + dbind H as [s1 v]. injection H as <- _. apply random_reference_rnd in E. apply rnd_only_frames in E.
+      rewrite E. auto.
 Qed.
 
 (* ------------------------------------------------------------------ (3) load after save *)
 
-(* the shape of the state between two iterations *)
+(* recipes without random_reference keep no row history at all *)
+Definition rh0 : rh := mkRh [] [] [] [] [].
+
+(* the shape of the state between two iterations (of a recipe without random_reference) *)
 Definition boundary (e : env) (s : st) : Prop :=
-  nick_objs s = [] /\ last_by_table s = [] /\ slots s = fresh_slots e /\ frames s = [mkFrame [] None].
+  nick_objs s = [] /\ last_by_table s = [] /\ slots s = fresh_slots e /\ frames s = [mkFrame [] None] /\
+  hist_tables e = [] /\ Interp.hist (rnd s) = rh0.
 
 (* every row reachable by a persistent name holds only scalars: nothing is dropped or
    unrepresentable when the continuation is written (the premise excluding K1 / K2) *)
@@ -470,11 +514,72 @@ Proof. destruct s; reflexivity. Qed.
 
 Theorem save_load_id e s :
   boundary e s -> persistable s ->
-  exists c, save s = Ok c /\ load e c = upd_out s [].
+  exists c, save s = Ok c /\ load e c = Ok (upd_out s []).
 Proof.
-  intros (B1 & B2 & B3 & B4) HP. unfold save. rewrite (clean_handles_id _ _ HP). cbn [bind].
-  eexists. split; [reflexivity|]. unfold load. cbn [k_ids k_p_nicks k_p_tables k_heap k_deps].
-  destruct s. cbn in *. subst. reflexivity.
+  intros (B1 & B2 & B3 & B4 & B5 & B6) HP. unfold save. rewrite (clean_handles_id _ _ HP). cbn [bind].
+  eexists. split; [reflexivity|]. unfold load, init_hist. rewrite B5. cbn [bind].
+  cbn [k_ids k_p_nicks k_p_tables k_heap k_deps k_draws].
+  destruct s as [i1 i2 i3 i4 i5 i6 i7 i8 i9 i10 [hh dd]]. cbn in *. subst. reflexivity.
+Qed.
+
+(* ------------------------------------------------------------------ the row history of a recipe
+   without random_reference stays empty (a random_reference would fail: nothing to draw from) *)
+
+Lemma set_var_rnd s n v : rnd (set_var s n v) = rnd s.
+Proof. unfold set_var. destruct (frames s); reflexivity. Qed.
+Lemma set_obj_rnd s h : rnd (set_obj s h) = rnd s.
+Proof. unfold set_obj. destruct (frames s); reflexivity. Qed.
+Lemma pop_frame_rnd s : rnd (pop_frame s) = rnd s.
+Proof. unfold pop_frame. destruct (frames s); reflexivity. Qed.
+Lemma set_field_rnd s h n v : rnd (set_field s h n v) = rnd s.
+Proof. unfold set_field. destruct (nth_error (heap s) h); reflexivity. Qed.
+Lemma register_object_rnd s h t nick once : rnd (register_object s h t nick once) = rnd s.
+Proof. unfold register_object. destruct nick, once; reflexivity. Qed.
+
+Theorem run_hist_empty fuel : forall e tk s s' r,
+  hist_tables e = [] -> run fuel e tk s = Ok (s', r) -> Interp.hist (rnd s) = rh0 -> Interp.hist (rnd s') = rh0.
+Proof.
+  induction fuel as [|n IH]; intros e tk s s' r He H H0; [discriminate|].
+  cbn [run] in H. destruct tk as [l c|x c|t|t i cnt last|t i|h fs|d].
+  - destruct l as [|x l]; [injection H as <- _; exact H0|].
+    dbind H as [s1 r1]. eapply IH; [exact He|exact H|]. eapply IH; eassumption.
+  - destruct x as [t|name d].
+    + destruct (t_once t && c); [injection H as <- _; exact H0|].
+      dbind H as [s1 r1]. injection H as <- _. eapply IH; eassumption.
+    + destruct d; try discriminate;
+        (dbind H as [s1 r1]; injection H as <- _; rewrite set_var_rnd, pop_frame_rnd;
+         eapply IH; [exact He|exact E|exact H0]).
+  - dbind H as [s1 cnt]. dbind H as [s2 r2]. injection H as <- _. rewrite pop_frame_rnd.
+    eapply IH; [exact He|exact E0|].
+    destruct (t_count t) as [d|].
+    + dbind E as [s1' r1]. dbind E as w0. injection E as <- _. eapply IH; [exact He|exact E1|exact H0].
+    + injection E as <- _. exact H0.
+  - destruct (i <? cnt); [|injection H as <- _; exact H0].
+    dbind H as [s1 r1]. destruct r1; try discriminate.
+    eapply IH; [exact He|exact H|]. eapply IH; [exact He|exact E|]. rewrite set_var_rnd. exact H0.
+  - destruct (new_row_id s (t_table t) (t_nick t)) as [s1 id] eqn:Hid.
+    dbind H as [s4 r4].
+    destruct (nth_error (heap s4) (length (heap s1))) as [c|]; [|discriminate].
+    dbind H as s5h. dbind H as s6. dbind H as [s7 r7]. injection H as <- _.
+    eapply IH; [exact He|exact E2|].
+    destruct (write_row_so _ _ _ E1) as (_ & _ & ->).
+    assert (H4 : Interp.hist (rnd s4) = rh0).
+    { eapply IH; [exact He|exact E|]. rewrite register_object_rnd, set_obj_rnd. cbn [rnd upd_heap].
+      destruct (new_row_id_same s (t_table t) (t_nick t)) as (_ & _ & Hr). rewrite Hid in Hr. cbn [fst] in Hr.
+      rewrite Hr. exact H0. }
+    unfold remember_history in E0. rewrite He in E0. cbn [existsb] in E0.
+    destruct (t_nick t); injection E0 as <-; destruct (remember_deps_same (c_fields c) s4 (t_table t)) as (_ & _ & -> & _); exact H4.
+  - destruct fs as [|[name d] fs]; [injection H as <- _; exact H0|].
+    destruct (String.eqb name "id"); [discriminate|].
+    dbind H as [s1 v]. eapply IH; [exact He|exact H|]. rewrite set_field_rnd. eapply IH; eassumption.
+  - destruct d as [z|x|ps|path|t|to].
+    + injection H as <- _. exact H0.
+    + destruct (version e =? 3); [injection H as <- _; exact H0|]. dbind H as w0. injection H as <- _. exact H0.
+    + dbind H as [s1 v]. injection H as <- _. destruct (render_formula_so _ _ _ _ _ E) as (_ & _ & -> & _). exact H0.
+    + dbind H as [s1 v]. injection H as <- _. destruct (reference_so _ _ _ _ _ E) as (_ & _ & -> & _). exact H0.
+    + eapply IH; eassumption.
+    + exfalso. dbind H as [s1 v]. unfold random_reference in E. destruct (negb (rr_ok e)); [discriminate|].
+      rewrite H0 in E. unfold ref_range, rh0 in E. cbn in E. discriminate.
 Qed.
 
 (* ------------------------------------------------------------------ iterations *)
@@ -510,7 +615,7 @@ Qed.
 
 Lemma iteration_inv e stmts c s s' :
   iteration e stmts c s = Ok s' ->
-  exists s1 r, run fuel0 e (TStmts stmts c) s = Ok (s1, r) /\ s' = reset_slots e s1.
+  exists s1 r, run fuel0 e (TStmts stmts c) s = Ok (s1, r) /\ s' = reset_hist (reset_slots e s1).
 Proof.
   unfold iteration. intros H. dbind H as [s1 r].
   destruct (slots_filled s1); [|discriminate].
@@ -522,13 +627,17 @@ Qed.
 Lemma iteration_boundary e stmts c s s' :
   forallb is_obj stmts = true -> boundary e s -> iteration e stmts c s = Ok s' -> boundary e s'.
 Proof.
-  intros Hobj (B1 & B2 & B3 & B4) H.
+  intros Hobj (B1 & B2 & B3 & B4 & B5 & B6) H.
   destruct (iteration_inv _ _ _ _ _ H) as (s1 & r & E & ->).
   assert (Hne : frames s <> []) by (rewrite B4; discriminate).
   destruct (run_frames _ _ _ _ _ _ E Hne) as (_ & _ & W).
   assert (W' : frames s1 = frames s) by (apply W; exact Hobj).
+  pose proof (run_hist_empty _ _ _ _ _ _ B5 E B6) as H1.
   split; [reflexivity|]. split; [reflexivity|]. split; [reflexivity|].
-  change (frames (reset_slots e s1)) with (frames s1). rewrite W'. exact B4.
+  split; [change (frames (reset_hist (reset_slots e s1))) with (frames s1); rewrite W'; exact B4|].
+  split; [exact B5|].
+  unfold reset_hist. cbn [rnd upd_rnd Interp.hist]. change (rnd (reset_slots e s1)) with (rnd s1).
+  rewrite H1. reflexivity.
 Qed.
 
 Lemma iterations_boundary k : forall e stmts c s s',
@@ -539,13 +648,13 @@ Proof.
   - dbind H as s1. eapply IH; [exact Hobj| |exact H]. eapply iteration_boundary; eassumption.
 Qed.
 
-Lemma init_boundary e : boundary e (init_st e).
-Proof. unfold boundary, init_st. cbn. auto. Qed.
+Lemma init_boundary e dr : hist_tables e = [] -> boundary e (init_st e dr).
+Proof. intros He. unfold boundary, init_st, init_hist. rewrite He. cbn. splits; auto. Qed.
 
 (* ------------------------------------------------------------------ split = unsplit *)
 
 (* a chain of runs from a given start state (run_history generalised over the start) *)
-Fixpoint hist (e : env) (stmts : list stmt) (ks : list nat) (c0 : bool) (s0 : st)
+Fixpoint chain (e : env) (stmts : list stmt) (ks : list nat) (c0 : bool) (s0 : st)
   : result (list (list orow)) :=
   match ks with
   | [] => Ok []
@@ -553,23 +662,28 @@ Fixpoint hist (e : env) (stmts : list stmt) (ks : list nat) (c0 : bool) (s0 : st
     do s <- iterations k e stmts c0 s0;
     match rest with
     | [] => Ok [rows_of s]
-    | _ => do c1 <- save s; do tl <- hist e stmts rest true (load e c1); Ok (rows_of s :: tl)
+    | _ => do c1 <- save s; do s1 <- load e c1; do tl <- chain e stmts rest true s1; Ok (rows_of s :: tl)
     end
   end.
 
-Lemma run_history_hist r ks :
-  run_history r ks None = hist (env_of r) (r_stmts r) ks false (init_st (env_of r)).
+Lemma run_history_chain r ks :
+  run_history r ks None = chain (env_of r) (r_stmts r) ks false (init_st (env_of r) (r_draws r)).
 Proof.
-  assert (G : forall ks c, run_history r ks (Some c) = hist (env_of r) (r_stmts r) ks true (load (env_of r) c)).
-  { induction ks0 as [|k rest IH]; intros c; cbn [run_history hist]; [reflexivity|].
-    cbn [run_one]. destruct (iterations k (env_of r) (r_stmts r) true (load (env_of r) c)) as [s|]; [|reflexivity].
+  assert (G : forall ks c, run_history r ks (Some c) =
+                           (do s1 <- load (env_of r) c; chain (env_of r) (r_stmts r) ks true s1) \/ ks = []).
+  { induction ks0 as [|k rest IH]; intros c; [right; reflexivity|left].
+    cbn [run_history chain run_one].
+    destruct (load (env_of r) c) as [s1|]; [|reflexivity]. cbn [bind].
+    destruct (iterations k (env_of r) (r_stmts r) true s1) as [s|]; [|reflexivity].
     cbn [bind]. destruct rest as [|k2 rest2]; [reflexivity|].
-    destruct (save s) as [c1|]; [|reflexivity]. cbn [bind]. rewrite IH. reflexivity. }
-  destruct ks as [|k rest]; cbn [run_history hist]; [reflexivity|].
+    destruct (save s) as [c1|]; [|reflexivity]. cbn [bind].
+    destruct (IH c1) as [->|Hnil]; [|discriminate]. destruct (load (env_of r) c1); reflexivity. }
+  destruct ks as [|k rest]; cbn [run_history chain]; [reflexivity|].
   cbn [run_one]. unfold run_fresh.
-  destruct (iterations k (env_of r) (r_stmts r) false (init_st (env_of r))) as [s|]; [|reflexivity].
+  destruct (iterations k (env_of r) (r_stmts r) false (init_st (env_of r) (r_draws r))) as [s|]; [|reflexivity].
   cbn [bind]. destruct rest as [|k2 rest2]; [reflexivity|].
-  destruct (save s) as [c1|]; [|reflexivity]. cbn [bind]. rewrite G. reflexivity.
+  destruct (save s) as [c1|]; [|reflexivity]. cbn [bind].
+  destruct (G (k2 :: rest2) c1) as [->|Hnil]; [|discriminate]. destruct (load (env_of r) c1); reflexivity.
 Qed.
 
 (* the premise "the just_once rows hold only scalars" at every cut of the chain *)
@@ -577,7 +691,7 @@ Fixpoint cuts_persistable (e : env) (stmts : list stmt) (ks : list nat) (c0 : bo
   match ks with
   | k :: ((_ :: _) as rest) =>
     forall s, iterations k e stmts c0 s0 = Ok s ->
-      persistable s /\ forall c1, save s = Ok c1 -> cuts_persistable e stmts rest true (load e c1)
+      persistable s /\ forall c1 s1, save s = Ok c1 -> load e c1 = Ok s1 -> cuts_persistable e stmts rest true s1
   | _ => True
   end.
 
@@ -586,29 +700,30 @@ Definition all_positive (ks : list nat) : Prop := Forall (fun k => (1 <= k)%nat)
 Lemma rows_of_app o s : rows_of (app_out o s) = (rev o ++ rows_of s)%list.
 Proof. unfold rows_of, app_out. cbn [out upd_out]. apply rev_app_distr. Qed.
 
-Theorem hist_eq_unsplit e stmts : forall ks c0 s0 rowss,
+Theorem chain_eq_unsplit e stmts : forall ks c0 s0 rowss,
   forallb is_obj stmts = true -> all_positive ks -> ks <> [] ->
   boundary e s0 -> out s0 = [] ->
   cuts_persistable e stmts ks c0 s0 ->
-  hist e stmts ks c0 s0 = Ok rowss ->
+  chain e stmts ks c0 s0 = Ok rowss ->
   exists sF, iterations (fold_right Nat.add 0%nat ks) e stmts c0 s0 = Ok sF /\
              rows_of sF = concat rowss.
 Proof.
   induction ks as [|k rest IH]; intros c0 s0 rowss Hobj Hpos Hne HB Hout HP H; [contradiction|].
-  cbn [hist] in H. dbind H as s.
+  cbn [chain] in H. dbind H as s.
   destruct rest as [|k2 rest2].
   - injection H as <-. cbn [fold_right concat]. rewrite Nat.add_0_r, app_nil_r. exists s. auto.
-  - dbind H as c1. dbind H as tl0. injection H as <-.
+  - dbind H as c1. dbind H as sl. dbind H as tl0. injection H as <-.
     inversion Hpos as [|? ? Hk Hrest]; subst.
     destruct k as [|k']; [lia|].
     pose proof (iterations_boundary _ _ _ _ _ _ Hobj HB E) as HBs.
     destruct (HP s E) as [Hps Hcuts].
     destruct (save_load_id e s HBs Hps) as (c1' & Hsave & Hload).
     rewrite E0 in Hsave. injection Hsave as <-.
-    assert (HB1 : boundary e (load e c1)).
-    { rewrite Hload. destruct HBs as (a & b & c & d). unfold boundary. cbn. auto. }
-    destruct (IH true (load e c1) tl0 Hobj Hrest ltac:(discriminate) HB1 ltac:(rewrite Hload; reflexivity)
-                 (Hcuts c1 E0) E1) as (sF' & HF' & Hrows').
+    rewrite E1 in Hload. injection Hload as Hload.
+    assert (HB1 : boundary e sl).
+    { rewrite Hload. destruct HBs as (a & b & c & d & f & g). unfold boundary. cbn. splits; auto. }
+    destruct (IH true sl tl0 Hobj Hrest ltac:(discriminate) HB1 ltac:(rewrite Hload; reflexivity)
+                 (Hcuts c1 sl E0 E1) E2) as (sF' & HF' & Hrows').
     (* the uninterrupted continuation from s is the split continuation with s's rows underneath *)
     assert (Hs : s = app_out (out s) (upd_out s [])).
     { clear. destruct s; reflexivity. }
@@ -619,16 +734,18 @@ Proof.
     + rewrite rows_of_app, Hrows'. cbn [concat]. unfold rows_of. reflexivity.
 Qed.
 
-(* C04 for fresh datasets: every way of cutting k iterations into runs k1+...+km (each >= 1)
-   chained by continuation files yields, concatenated, exactly the rows of the single run. *)
+(* C04 for fresh datasets of recipes without random_reference and without top-level variables:
+   every way of cutting k iterations into runs k1+...+km (each >= 1) chained by continuation
+   files yields, concatenated, exactly the rows of the single run. *)
 Theorem split_eq_unsplit r ks rowss :
+  hist_tables (env_of r) = [] ->
   forallb is_obj (r_stmts r) = true -> all_positive ks -> ks <> [] ->
-  cuts_persistable (env_of r) (r_stmts r) ks false (init_st (env_of r)) ->
+  cuts_persistable (env_of r) (r_stmts r) ks false (init_st (env_of r) (r_draws r)) ->
   run_history r ks None = Ok rowss ->
   run_history r [fold_right Nat.add 0%nat ks] None = Ok [concat rowss].
 Proof.
-  intros Hobj Hpos Hne HP H. rewrite run_history_hist in H.
-  destruct (hist_eq_unsplit _ _ _ _ _ _ Hobj Hpos Hne (init_boundary _) eq_refl HP H) as (sF & HF & Hrows).
+  intros Hrr Hobj Hpos Hne HP H. rewrite run_history_chain in H.
+  destruct (chain_eq_unsplit _ _ _ _ _ _ Hobj Hpos Hne (init_boundary _ _ Hrr) eq_refl HP H) as (sF & HF & Hrows).
   cbn [run_history run_one]. unfold run_fresh. rewrite HF. cbn [bind]. rewrite Hrows. reflexivity.
 Qed.
 
@@ -636,6 +753,7 @@ Qed.
    if k1+k2 iterations complete in one run, then stopping after k1 (>= 1) iterations and
    continuing for k2 more from the continuation also completes, with the same rows. *)
 Theorem continuation_never_fails r k1 k2 sF :
+  hist_tables (env_of r) = [] ->
   forallb is_obj (r_stmts r) = true ->
   run_fresh r (S k1 + k2) = Ok sF ->
   exists s1, run_fresh r (S k1) = Ok s1 /\
@@ -643,10 +761,10 @@ Theorem continuation_never_fails r k1 k2 sF :
      exists rows2, run_history r [S k1; k2] None = Ok [rows_of s1; rows2] /\
                    rows_of sF = (rows_of s1 ++ rows2)%list).
 Proof.
-  unfold run_fresh. intros Hobj H. rewrite iterations_add in H.
-  destruct (iterations (S k1) (env_of r) (r_stmts r) false (init_st (env_of r))) as [s1|] eqn:E; [|discriminate].
+  unfold run_fresh. intros Hrr Hobj H. rewrite iterations_add in H.
+  destruct (iterations (S k1) (env_of r) (r_stmts r) false (init_st (env_of r) (r_draws r))) as [s1|] eqn:E; [|discriminate].
   cbn [bind] in H. exists s1. split; [reflexivity|]. intros Hps.
-  pose proof (iterations_boundary _ _ _ _ _ _ Hobj (init_boundary _) E) as HB.
+  pose proof (iterations_boundary _ _ _ _ _ _ Hobj (init_boundary _ _ Hrr) E) as HB.
   destruct (save_load_id _ _ HB Hps) as (c1 & Hsave & Hload).
   assert (Hs : s1 = app_out (out s1) (upd_out s1 [])) by (clear; destruct s1; reflexivity).
   rewrite Hs, iterations_app in H.
@@ -654,7 +772,7 @@ Proof.
   cbn [liftS] in H. injection H as <-.
   exists (rows_of s2). split.
   - cbn [run_history run_one]. unfold run_fresh. rewrite E. cbn [bind]. rewrite Hsave. cbn [bind].
-    rewrite Hload, E2. reflexivity.
+    rewrite Hload. cbn [bind]. rewrite E2. reflexivity.
   - rewrite rows_of_app. unfold rows_of. reflexivity.
 Qed.
 
@@ -675,41 +793,43 @@ Proof. intros (r & Hr & H). exists r. split; [apply in_or_app; auto|exact H]. Qe
 Lemma resolves_in_app_r a b T i : resolves_in b T i -> resolves_in (a ++ b) T i.
 Proof. intros (r & Hr & H). exists r. split; [apply in_or_app; auto|exact H]. Qed.
 
-(* every reference written anywhere in a chain of runs resolves to a row written by the same
-   run or by an earlier run of the chain ([prev] = rows of the runs before this chain) *)
-Theorem hist_no_dangling e stmts : forall ks c0 s0 rowss prev,
-  start_ok s0 -> Bd s0 ->
+(* every reference written anywhere in a chain of runs — random references included — resolves
+   to a row written by the same run or by an earlier run of the chain ([prev] = rows of the
+   runs before this chain) *)
+Theorem chain_no_dangling e stmts : forall ks c0 s0 rowss prev,
+  start_ok s0 -> Bd s0 -> V s0 ->
   (forall T, hidden T = false -> Permutation (written T prev) (Zseq 1 (Z.to_nat (last_id s0 T)))) ->
-  hist e stmts ks c0 s0 = Ok rowss ->
+  chain e stmts ks c0 s0 = Ok rowss ->
   forall row n T i, In row (concat rowss) -> In (n, ORef T i) (snd row) -> hidden T = false ->
     resolves_in (prev ++ concat rowss) T i.
 Proof.
-  induction ks as [|k rest IH]; intros c0 s0 rowss prev Hs0 HB Hprev H row n T i Hr Hin HT;
-    cbn [hist] in H; [injection H as <-; destruct Hr|].
+  induction ks as [|k rest IH]; intros c0 s0 rowss prev Hs0 HB HV0 Hprev H row n T i Hr Hin HT;
+    cbn [chain] in H; [injection H as <-; destruct Hr|].
   dbind H as s.
   assert (HJ0 : J s0).
   { split; [exact HB|]. destruct Hs0 as (_ & _ & _ & Ho). intros ? ? ? ? Hx. rewrite Ho in Hx. destruct Hx. }
-  destruct (iterations_J _ _ _ _ _ _ E HJ0) as [HJs _].
+  destruct (iterations_J _ _ _ _ _ _ E HJ0 HV0) as (HJs & _ & HVs).
   destruct (ids_dense_run _ _ _ _ _ _ Hs0 E) as [Hok HD].
   (* references of this run *)
   assert (Hthis : forall row n T i, In row (rows_of s) -> In (n, ORef T i) (snd row) -> hidden T = false ->
                   resolves_in (prev ++ rows_of s) T i).
   { intros row1 n1 T1 i1 Hr1 Hin1 HT1. unfold rows_of in Hr1. apply in_rev in Hr1.
-    destruct (no_dangling_run _ _ _ _ _ _ Hs0 HB E row1 n1 T1 i1 Hr1 Hin1 HT1) as [Hold|(r' & Hr' & Hk)].
+    destruct (no_dangling_run _ _ _ _ _ _ Hs0 HB HV0 E row1 n1 T1 i1 Hr1 Hin1 HT1) as [Hold|(r' & Hr' & Hk)].
     - apply resolves_in_app_l. apply written_In_iff.
       apply (Permutation_in _ (Permutation_sym (Hprev T1 HT1))). apply Zseq_In. lia.
     - apply resolves_in_app_r. exists r'. split; [unfold rows_of; rewrite <- in_rev; exact Hr'|exact Hk]. }
   destruct rest as [|k2 rest2].
   - injection H as <-. cbn [concat] in *. rewrite app_nil_r in *. eapply Hthis; eassumption.
-  - dbind H as c1. dbind H as tl0. injection H as <-. cbn [concat] in Hr |- *.
+  - dbind H as c1. dbind H as sl. dbind H as tl0. injection H as <-. cbn [concat] in Hr |- *.
     apply in_app_or in Hr. destruct Hr as [Hr|Hr].
     + rewrite app_assoc. apply resolves_in_app_l. eapply Hthis; eassumption.
     + rewrite app_assoc.
-      eapply (IH true (load e c1) tl0 (prev ++ rows_of s)); try eassumption.
-      * destruct Hok as (_ & _ & Hnn & _). apply load_start_ok. intros U.
+      eapply (IH true sl tl0 (prev ++ rows_of s)); try eassumption.
+      * destruct Hok as (_ & _ & Hnn & _). eapply load_start_ok; [exact E1|]. intros U.
         rewrite (save_ids _ _ E0). apply (Hnn U).
-      * eapply load_Bd; [exact (J_Bd _ HJs)|exact E0].
-      * intros U HU. rewrite (resume_after_highest e _ _ U E0).
+      * eapply load_Bd; [exact (J_Bd _ HJs)|exact E0|exact E1].
+      * eapply load_V; [exact HVs|exact (J_Bd _ HJs)|exact E0|exact E1].
+      * intros U HU. rewrite (resume_after_highest e _ _ _ U E0 E1).
         destruct (HD U) as [Hle HP]. specialize (HP HU).
         unfold written. rewrite flat_map_app. fold (written U prev). fold (written U (rows_of s)).
         replace (Z.to_nat (last_id s U)) with (Z.to_nat (last_id s0 U) + Z.to_nat (last_id s U - last_id s0 U))%nat.
@@ -726,8 +846,8 @@ Theorem no_dangling_history r ks rowss :
   forall row n T i, In row (concat rowss) -> In (n, ORef T i) (snd row) -> hidden T = false ->
     resolves_in (concat rowss) T i.
 Proof.
-  intros H row n T i Hr Hin HT. rewrite run_history_hist in H.
-  apply (hist_no_dangling _ _ _ _ _ _ [] (init_start_ok _) (init_Bd _)) with (row := row) (n := n) (T := T) (i := i) in H;
+  intros H row n T i Hr Hin HT. rewrite run_history_chain in H.
+  apply (chain_no_dangling _ _ _ _ _ _ [] (init_start_ok _ _) (init_Bd _ _) (init_V _ _)) with (row := row) (n := n) (T := T) (i := i) in H;
     try assumption.
   intros U _. cbn. unfold last_id. cbn. constructor.
 Qed.
